@@ -211,8 +211,11 @@ def enum_crashes(seed):
 
             def wrap(name):
                 def f(*a, **k):
+                    if counter.get("dead"):
+                        raise _Stop()       # a dead process performs no further file operation, whatever handlers its code has
                     counter["n"] += 1
                     if counter["n"] == stop:
+                        counter["dead"] = True
                         raise _Stop()
                     return real[name](*a, **k)
                 return f
